@@ -3,14 +3,22 @@ package pipeline
 import (
 	"context"
 	"errors"
+	"io"
 
 	"github.com/streamingfast/bstream"
+	"github.com/streamingfast/substreams"
 	"github.com/streamingfast/substreams/manifest"
+	"github.com/streamingfast/substreams/metrics"
 	"github.com/streamingfast/substreams/orchestrator/plan"
 	pbsubstreamsrpc "github.com/streamingfast/substreams/pb/sf/substreams/rpc/v2"
+	pbsubstreams "github.com/streamingfast/substreams/pb/sf/substreams/v1"
+	"github.com/streamingfast/substreams/pipeline/cache"
 	"github.com/streamingfast/substreams/pipeline/exec"
 	"github.com/streamingfast/substreams/reqctx"
+	"github.com/streamingfast/substreams/storage/execout"
+	"github.com/streamingfast/substreams/storage/store"
 	sym "github.com/streamingfast/substreams/zz_verifsym"
+	"go.uber.org/zap"
 )
 
 // VerifC04Gate: a strictly increasing block sequence fed to the real gate and
@@ -178,4 +186,93 @@ func VerifC04Resume() {
 	sym.Assert(undo == nil, "final-cursor-no-undo")
 	sym.Assert(details.ResolvedStartBlockNum == n+1, "resume-starts-right-after-the-cursor-block")
 	sym.Assert(resumedX == sym.And(x > n, sym.Or(stop == 0, x < stop)), "resumed-stream-is-the-suffix-after-the-cursor-block")
+}
+
+// VerifC04StepNew: a strictly increasing run of new / new+final blocks through
+// the real Pipeline.processBlock → handleStepNew (→ handleStepFinal), with an
+// output module that produces nothing (no executor runs): in development and
+// in production mode alike, every block from the gate on and below the stop
+// block is delivered exactly once, as its own message (clock, cursor, final
+// height), the stream ends at the stop block and nothing is delivered after.
+func VerifC04StepNew() {
+	k := sym.Param("BLOCKS", 3)
+	prod := sym.Choice("production", 2) == 1
+	// small concrete numbers (the gate / stop arithmetic over all 64-bit values is VerifC04Gate's):
+	// this harness is about which blocks get a message once the real handler runs
+	gateBlock := []uint64{0, 2, 3}[sym.Choice("gate", 3)]
+	stop := []uint64{0, 4, 5}[sym.Choice("stop", 3)]
+	ctx := reqctx.WithRequest(context.Background(), &reqctx.RequestDetails{LinearGateBlockNum: gateBlock, StopBlockNum: stop, ProductionMode: prod, OutputModule: "out"})
+	ctx = reqctx.WithReqStats(ctx, metrics.NewReqStats(&metrics.Config{}, zap.NewNop()))
+	engine, _ := cache.NewEngine(ctx, nil, "sf.test.Block", nil, nil)
+	var sent []*pbsubstreamsrpc.BlockScopedData
+	p := &Pipeline{
+		ctx:             ctx,
+		gate:            newGate(ctx),
+		forkHandler:     NewForkHandler(),
+		stores:          &Stores{StoreMap: store.NewMap(), logger: zap.NewNop()},
+		execOutputCache: engine,
+		blockStepMap:    map[bstream.StepType]uint64{},
+		ModuleExecutors: [][]exec.ModuleExecutor{},
+		stateBundleSize: 10,
+	}
+	p.respFunc = func(anyResp substreams.ResponseFromAnyTier) error {
+		if r, ok := anyResp.(*pbsubstreamsrpc.Response); ok {
+			if d := r.GetBlockScopedData(); d != nil {
+				sent = append(sent, d)
+			}
+		}
+		return nil
+	}
+	prev := uint64(0)
+	lib := bstream.NewBlockRef("g", 0)
+	for i := 0; i < k; i++ {
+		num := prev + 1 + uint64(sym.Choice("skip", 2)) // chains may skip numbers
+		prev = num
+		id := "b" + string(rune('0'+i))
+		ref := bstream.NewBlockRef(id, num)
+		step := bstream.StepNew
+		if sym.Choice("final", 2) == 1 {
+			step = bstream.StepNewIrreversible
+			lib = ref
+		}
+		clock := &pbsubstreams.Clock{Number: num, Id: id}
+		cursor := &bstream.Cursor{Step: step, Block: ref, LIB: lib, HeadBlock: ref}
+		// Pipeline.ProcessBlock (its three lines before processBlock, mirrored)
+		p.gate.processBlock(num, step)
+		buf, err := execout.NewBuffer("sf.test.Block", nil, clock)
+		if err != nil {
+			sym.Unreachable("buffer-ok")
+			return
+		}
+		before := len(sent)
+		err = p.processBlock(ctx, buf, clock, cursor, step, nil)
+		if err == io.EOF {
+			sym.Assert(sym.And(stop != 0, num >= stop), "stream-ends-only-at-the-stop-block")
+			sym.Assert(len(sent) == before, "nothing-delivered-at-or-after-the-stop-block")
+			sym.Reach("ended")
+			return
+		}
+		if err != nil {
+			sym.Unreachable("block-processed-without-error")
+			return
+		}
+		sym.Assert(sym.Or(stop == 0, num < stop), "stream-ends-at-the-stop-block")
+		want := 0
+		if num >= gateBlock {
+			want = 1
+		}
+		sym.Assert(len(sent)-before == want, "every-block-from-the-gate-on-delivered-once-even-when-empty")
+		if len(sent)-before == 1 {
+			d := sent[len(sent)-1]
+			sym.Assert(d.Clock.Number == num && d.Clock.Id == id, "message-carries-its-block")
+			sym.Assert(d.FinalBlockHeight == lib.Num(), "message-carries-the-final-height")
+			back, derr := bstream.CursorFromOpaque(d.Cursor)
+			sym.Assert(derr == nil, "message-cursor-decodes")
+			if derr == nil {
+				sym.Assert(back.Block.Num() == num && back.Block.ID() == id, "message-cursor-designates-its-block")
+			}
+			sym.Reach("delivered")
+		}
+	}
+	sym.Reach("done")
 }
